@@ -27,7 +27,7 @@ fn pad(r: &mut Rng) -> String {
 }
 
 /// MATERIAL, GLASS-TYPE, NAME-FRAME, BUILDING-SHADE and WINDOW blocks with random values and optional attributes
-pub fn typed_elements(r: &mut Rng, n: usize, findings: &mut Vec<Value>) -> Value {
+pub fn typed_elements(r: &mut Rng, n: usize, findings: &mut Vec<Value>, texts: &mut Vec<String>) -> Value {
     let mut checked = 0usize;
     let mut fields = 0usize;
     for doc in 0..n {
@@ -158,6 +158,7 @@ pub fn typed_elements(r: &mut Rng, n: usize, findings: &mut Vec<Value>) -> Value
             text.push_str("  ..\n");
             expect.push((name, exp, group));
         }
+        texts.push(text.clone());
         let t2 = text.clone();
         let data = match crate::guarded(std::panic::AssertUnwindSafe(move || Data::new(&t2).map_err(|e| e.to_string()))) {
             Ok(Ok(d)) => d,
@@ -525,4 +526,60 @@ pub fn tbl_case(text: &str, scratch: &str) -> (String, usize) {
     };
     // the text as the parser sees it (latin-1 file read back as characters)
     (format!("CTbl (mkTC {}\n ({}))", clines(text), it), cls)
+}
+
+fn onum(o: &Option<f32>) -> String {
+    match o {
+        Some(x) => format!("(Some {})", num(*x)),
+        None => "None".to_string(),
+    }
+}
+
+/// a BDL text of MATERIAL / GLASS-TYPE / NAME-FRAME / WINDOW / BUILDING-SHADE blocks with the typed elements
+/// hulc::bdl::Data::new builds from it, as a Coq case
+pub fn typed_case(text: &str) -> (String, usize) {
+    use crate::p18::{clines, cstr};
+    let t = text.to_string();
+    let (it, cls) = match crate::guarded(std::panic::AssertUnwindSafe(move || Data::new(&t).map_err(|e| e.to_string()))) {
+        Ok(Ok(d)) => {
+            let ms: Vec<String> = d
+                .db
+                .materials
+                .values()
+                .map(|m| {
+                    let props = match &m.properties {
+                        Some(p) => format!("(Some ({}, {}, {}, {}, {}))", onum(&p.thickness), num(p.conductivity), num(p.density), num(p.specificheat), onum(&p.vapourdiffusivity)),
+                        None => "None".to_string(),
+                    };
+                    format!("mkIM {} {} {} {}", cstr(&m.name), cstr(&m.group), props, onum(&m.resistance))
+                })
+                .collect();
+            let gs: Vec<String> = d.db.glasses.values().map(|g| format!("mkIG {} {} {} {}", cstr(&g.name), cstr(&g.group), num(g.conductivity), num(g.g_gln))).collect();
+            let fs: Vec<String> = d.db.frames.values().map(|f| format!("mkIF {} {} {} {} {}", cstr(&f.name), cstr(&f.group), num(f.conductivity), num(f.absorptivity), num(f.width))).collect();
+            let ws: Vec<String> = d
+                .windows
+                .iter()
+                .map(|w| format!("mkIWn {} {} {} [{}; {}; {}; {}; {}]", cstr(&w.name), cstr(&w.wall), cstr(&w.cons), num(w.x), num(w.y), num(w.height), num(w.width), num(w.setback)))
+                .collect();
+            let ss: Vec<String> = d
+                .shadings
+                .iter()
+                .map(|s| {
+                    let g = match &s.geometry {
+                        Some(g) => format!("(Some [{}; {}; {}; {}; {}; {}; {}])", num(g.x), num(g.y), num(g.z), num(g.height), num(g.width), num(g.azimuth), num(g.tilt)),
+                        None => "None".to_string(),
+                    };
+                    let v = match &s.vertices {
+                        Some(vs) => format!("(Some [{}])", vs.iter().map(|p| format!("[{}; {}; {}]", num(p.x), num(p.y), num(p.z))).collect::<Vec<_>>().join("; ")),
+                        None => "None".to_string(),
+                    };
+                    format!("mkISh {} {} {} {} {}", cstr(&s.name), num(s.tran), num(s.refl), g, v)
+                })
+                .collect();
+            (format!("DOk (mkID [{}] [{}] [{}] [{}] [{}])", ms.join("; "), gs.join("; "), fs.join("; "), ws.join("; "), ss.join("; ")), 0)
+        }
+        Ok(Err(_)) => ("DErr".to_string(), 1),
+        Err(_) => ("DPanic".to_string(), 2),
+    };
+    (format!("CTyped (mkTyC {}\n ({}))", clines(text), it), cls)
 }
